@@ -376,9 +376,39 @@ pub fn gen_for(prop: &str, class: &str, seed: u64, idx: u64) -> (StreamScenario,
     }
 }
 
+pub fn huge_reps(idx: u64) -> u64 {
+    // 2^32 and 2^31 are crossed with margin
+    [4100u64, 2060, 4200, 4100][(idx % 4) as usize]
+}
+
 pub fn run_job(job: &Job, progress: &dyn Fn(u64)) -> WorkerOut {
     silence_panics();
     let mut acc = Acc::new(job.want_samples);
+    if job.class == "huge" {
+        for idx in job.from..job.to {
+            progress(idx);
+            let reps = huge_reps(idx);
+            let (v, matches, bytes) = huge_run(job.seed, idx, reps);
+            acc.out.scenarios += 1;
+            acc.out.execs += 1;
+            acc.out.stream_bytes += bytes;
+            acc.out.events += matches;
+            acc.probe("huge_stream_beyond_4GiB", (bytes > (1u64 << 32)) as u64);
+            acc.config("class=huge".to_string());
+            if let Some(v) = v {
+                acc.out.failure_count += 1;
+                *acc.out.classes.entry(v.class.clone()).or_insert(0) += 1;
+                acc.out.failures.push(Failure {
+                    idx,
+                    gen_class: "huge".into(),
+                    class: v.class.clone(),
+                    detail: v.detail.clone(),
+                    scenario: serde_json::json!({"huge": {"seed": job.seed, "idx": idx, "reps": reps}}),
+                });
+            }
+        }
+        return acc.finish();
+    }
     for idx in job.from..job.to {
         progress(idx);
         let (sc, info) = gen_for(&job.prop, &job.class, job.seed, idx);
@@ -502,4 +532,116 @@ fn one_scenario(acc: &mut Acc, job: &Job, idx: u64, sc: &StreamScenario, info: &
             }
         }
     }
+}
+
+// ------------------------------------------------------------------ huge streams (absolute offsets beyond 2^32)
+
+struct PeriodicReader {
+    block: std::sync::Arc<Vec<u8>>,
+    pos: u64,
+    total: u64,
+    chunk: usize,
+    pub calls: u64,
+}
+
+impl std::io::Read for PeriodicReader {
+    fn read(&mut self, buf: &mut [u8]) -> std::io::Result<usize> {
+        self.calls += 1;
+        if self.calls % 2048 == 0 {
+            crate::parent::tick();
+        }
+        if self.pos >= self.total || buf.is_empty() {
+            return Ok(0);
+        }
+        let l = self.block.len() as u64;
+        let off = (self.pos % l) as usize;
+        let n = buf
+            .len()
+            .min(self.chunk)
+            .min(self.block.len() - off)
+            .min((self.total - self.pos) as usize);
+        buf[..n].copy_from_slice(&self.block[off..off + n]);
+        self.pos += n as u64;
+        Ok(n)
+    }
+}
+
+/// One run over a periodic stream of `reps` x 1 MiB blocks (shipped buffer
+/// capacity). Blocks end in a separator byte that occurs in no pattern, so
+/// the matches of the concatenation are the matches of one block shifted by
+/// multiples of the block length: the expected sequence needs no 4 GiB
+/// haystack. Catches truncation of absolute offsets (u32 / i32 / usize casts).
+pub fn huge_run(seed: u64, idx: u64, reps: u64) -> (Option<Violation>, u64, u64) {
+    let mut rng = Rng::for_run(seed, 4242, idx);
+    let r = &mut rng;
+    let pal = [b'a', b'b', b'c'];
+    let mut pats: Vec<Vec<u8>> = Vec::new();
+    for _ in 0..r.range(1, 3) {
+        let l = r.range(7, 11);
+        pats.push((0..l).map(|_| *r.pick(&pal)).collect());
+    }
+    let l: usize = 1 << 20;
+    let mut block: Vec<u8> = (0..l).map(|_| *r.pick(&pal)).collect();
+    for _ in 0..200 {
+        let p = r.pick(&pats).clone();
+        let at = r.below(l - p.len() - 1);
+        block[at..at + p.len()].copy_from_slice(&p);
+    }
+    block[l - 1] = b'\n';
+    let mut opts = BuildOpts::plain();
+    opts.kind = *r.pick(&[Kind::Noncontiguous, Kind::Contiguous, Kind::Dfa]);
+    opts.prefilter = false;
+    let sut = match sut::build(&pats, &opts) {
+        Ok(s) => s,
+        Err(_) => return (None, 0, 0),
+    };
+    let base = match sut.find_all(&block) {
+        Ok(b) => b,
+        Err(_) => return (None, 0, 0),
+    };
+    if base.is_empty() {
+        return (None, 0, 0);
+    }
+    let chunk = *r.pick(&[usize::MAX, 65536, 60000, 4096]);
+    let total = reps * l as u64;
+    let mut rdr = PeriodicReader { block: std::sync::Arc::new(block), pos: 0, total, chunk, calls: 0 };
+    let n = base.len() as u64;
+    let mut i: u64 = 0;
+    let mut viol: Option<Violation> = None;
+    aho_corasick::verif::set_stream_buffer_spare(None);
+    let res = catch_unwind(AssertUnwindSafe(|| {
+        sut.stream_find(&mut rdr, false, |item| match item {
+            None => false,
+            Some(Err(e)) => {
+                viol = Some(Violation { class: "spurious-error".into(), detail: format!("huge stream: unexpected error {:?}", e.kind()) });
+                false
+            }
+            Some(Ok(m)) => {
+                let b = base[(i % n) as usize];
+                let shift = (i / n) * l as u64;
+                let want = (b.0, b.1 as u64 + shift, b.2 as u64 + shift);
+                let got = (m.pattern().as_u32(), m.start() as u64, m.end() as u64);
+                if got != want {
+                    viol = Some(Violation {
+                        class: "match-seq-mismatch".into(),
+                        detail: format!("huge stream ({} x 1 MiB periodic blocks): match #{} is {:?}, expected {:?}", reps, i, got, want),
+                    });
+                    return false;
+                }
+                i += 1;
+                true
+            }
+        })
+    }));
+    let _ = aho_corasick::verif::take_point_counts();
+    if let Err(_) = res {
+        return (Some(Violation { class: "panic".into(), detail: "panic during huge stream search".into() }), i, rdr.pos);
+    }
+    if viol.is_none() && i != n * reps {
+        viol = Some(Violation {
+            class: "match-seq-mismatch".into(),
+            detail: format!("huge stream: {} matches yielded, expected {} ({} bytes delivered of {})", i, n * reps, rdr.pos, total),
+        });
+    }
+    (viol, i, rdr.pos)
 }
